@@ -18,6 +18,7 @@ from typing import Any, Dict, List, Optional
 
 from common import Ctx, hx, run_model_parallel
 from props import c06
+from ref import c14_pairverify as refpv
 from ref import pairings as refp
 
 PROP = "C14"
@@ -52,6 +53,11 @@ def build_state(spec: Dict[str, Any]) -> c06.Real:
         else:
             cu = int(op["cu"]) if op["cu"] is not None else None
             real.request(op["enc"], cu, bytes.fromhex(op["body"]))
+    for v in spec.get("verifiers", []):  # controllers owning a real Ed25519 key pair (registered as pair-setup does)
+        try:
+            real.driver.pair(bytes.fromhex(v["id"]), refpv.controller_key(bytes.fromhex(v["seed"]))[1], bytes([v["perm"]]))
+        except Exception:  # noqa: BLE001
+            pass
     real.state.config_version = spec["config_version"]
     real.state.accessories_hash = spec["accessories_hash"]
     return real
@@ -73,10 +79,23 @@ def dict_view(st: Dict[str, Any]) -> Dict[str, Any]:
     }
 
 
-def behaviour(real: c06.Real) -> Dict[str, Any]:
+def behaviour(real: c06.Real, verifiers=(), saved_identity=None) -> Dict[str, Any]:
     """What paired controllers can observe: list answer from the first admin, admin test and the
-    long-term key looked up by pair-verify for every controller."""
+    long-term key looked up by pair-verify for every controller; for controllers with a real key
+    pair a complete pair-verify by the reference controller (which checks the accessory's proof
+    against the identifier and long-term public key it knew BEFORE the restart)."""
     st = real.state
+    acc_id, acc_ltpk = saved_identity if saved_identity else (st.mac.encode(), bytes.fromhex(real.ident()["public_key"]))
+    verify = {}
+    for v in verifiers:
+        post, h = real.connection()
+        try:
+            res = refpv.pair_verify(lambda b: post("/pair-verify", b), bytes.fromhex(v["id"]), bytes.fromhex(v["seed"]), acc_ltpk, acc_id)
+        except Exception as ex:  # noqa: BLE001
+            res = "controller error " + type(ex).__name__
+        if res == "verified" and not (h.is_encrypted and h.client_uuid == uuidlib.UUID(bytes.fromhex(v["id"]).decode())):
+            res = "M4 sent but the session is not marked verified for this controller"
+        verify[v["id"]] = res
     admin = next((u for u in st.paired_clients if st.is_admin(u)), None)
     listing = None
     if admin is not None:
@@ -89,6 +108,7 @@ def behaviour(real: c06.Real) -> Dict[str, Any]:
         "list": listing,
         "admin": {str(u.int): st.is_admin(u) for u in set(st.paired_clients) | set(st.client_properties)},
         "verify_key": {str(u.int): hx(st.paired_clients.get(u) or b"") for u in st.paired_clients},
+        "pair_verify": verify,
     }
 
 
@@ -118,7 +138,9 @@ def run_state_case(ctx: Optional[Ctx], spec: Dict[str, Any], idx: int = 0):
     fail = None
     try:
         before = full_state(real)
-        beh_before = behaviour(real)
+        vs = spec.get("verifiers", [])
+        saved_identity = (real.state.mac.encode(), bytes.fromhex(before["public_key"]))
+        beh_before = behaviour(real, vs, saved_identity)
         real.driver.persist()
         doc = real.file_doc()
         fresh, err = reload_real(real.path, via_add_accessory=(idx % 16 == 0))
@@ -128,10 +150,10 @@ def run_state_case(ctx: Optional[Ctx], spec: Dict[str, Any], idx: int = 0):
         else:
             try:
                 after = full_state(fresh)
-                beh_after = behaviour(fresh)
+                beh_after = behaviour(fresh, vs, saved_identity)
             finally:
                 fresh.close()
-            impl = {"doc": doc, "loaded": after}
+            impl = {"doc": doc, "loaded": after, "pair_verify": [beh_before["pair_verify"], beh_after["pair_verify"]]}
             dv0, dv1 = dict_view(before), dict_view(after)
             diff = [k for k in dv0 if dv0[k] != dv1[k]]
             if diff:
@@ -140,7 +162,11 @@ def run_state_case(ctx: Optional[Ctx], spec: Dict[str, Any], idx: int = 0):
                         f"({len(before['paired'])} controllers, config_version {before['config_version']})")
             elif beh_before != beh_after:
                 what = [k for k in beh_before if beh_before[k] != beh_after[k]]
-                fail = ("C14:behaviour-differs-after-reload:" + what[0], f"after a restart {what} differ for the paired controllers")
+                detail = ""
+                if what == ["pair_verify"]:
+                    detail = ": " + "; ".join(f"{beh_before['pair_verify'][k]} -> {beh_after['pair_verify'][k]}" for k in beh_before["pair_verify"]
+                                              if beh_before["pair_verify"][k] != beh_after["pair_verify"][k])[:200]
+                fail = ("C14:behaviour-differs-after-reload:" + what[0], f"after a restart {what} differ for the paired controllers{detail}")
         line = {"layer": "encoder", "op": "roundtrip", "state": before}
         return line, impl, fail
     finally:
@@ -196,8 +222,14 @@ def gen_specs(ctx: Ctx) -> List[Dict[str, Any]]:
     hashes = [None, "", "0" * 64, hx(bytes(range(32))), "ABCDEF", "é-hash"]
     cvs = [1, 2, 255, 256, 65534, 65535]
 
+    def verifiers():
+        out = []
+        for _ in range(rng.choice([0, 1, 1, 2])):
+            out.append({"id": hx(c06.spell(rng, rng.getrandbits(128))), "seed": hx(c06.key_of(rng)), "perm": rng.choice([0, 1, 1, 3, 254, rng.randrange(256)])})
+        return out
+
     def spec(ops):
-        return {"ops": ops, "config_version": rng.choice(cvs) if rng.random() < 0.5 else rng.randrange(1, MAXCV + 1),
+        return {"ops": ops, "verifiers": verifiers(), "config_version": rng.choice(cvs) if rng.random() < 0.5 else rng.randrange(1, MAXCV + 1),
                 "accessories_hash": rng.choice(hashes) if rng.random() < 0.6 else hx(bytes(rng.randrange(256) for _ in range(32)))}
 
     A = rng.getrandbits(128)
@@ -229,7 +261,7 @@ def gen_specs(ctx: Ctx) -> List[Dict[str, Any]]:
         s["accessories_hash"] = h
         specs.append(s)
     n_boundary = len(specs)
-    for _ in range(ctx.n(320, 6000)):
+    for _ in range(ctx.n(700, 8000)):
         specs.append(spec(c06.random_script(ctx)))
     ctx.stats.notes.append(f"{n_boundary} deterministic boundary states first, then {len(specs) - n_boundary} states from random C06 histories")
     return specs
@@ -291,7 +323,7 @@ def gen_docs(ctx: Ctx) -> List[Dict[str, Any]]:
     """Legacy and odd documents derived from really persisted ones."""
     rng = ctx.rng
     docs = []
-    for i in range(ctx.n(120, 1500)):
+    for i in range(ctx.n(240, 2500)):
         ops = c06.random_script(ctx) if i % 3 else [c06.setup(c06.spell(rng, rng.getrandbits(128), 1), c06.key_of(rng))] + [
             c06.req(None, "", False)]
         real = build_state({"ops": ops, "config_version": rng.randrange(1, MAXCV + 1), "accessories_hash": rng.choice([None, "ab" * 16])})
@@ -365,6 +397,10 @@ def run(ctx: Ctx):
     for ln, m, impl in zip(lines, model[: len(lines)], impls):
         st.traces_validated += 1
         mm = canon_model_roundtrip(m)
+        for pv in impl.get("pair_verify", [{}])[:1]:
+            for res in pv.values():
+                st.hit("outcome", "pair-verify-before-and-after/" + res.replace(" ", "-"))
+        impl = {"doc": impl["doc"], "loaded": impl["loaded"]}
         if mm != impl:
             field = "doc" if mm["doc"] != impl["doc"] else "loaded"
             sub = ""
@@ -375,8 +411,9 @@ def run(ctx: Ctx):
         st.traces_validated += 1
         if m != impl:
             ctx.disagree("encoder/load-document", {"doc": _short(ln["doc"])}, _short(m), _short(impl))
-    st.sample({"state": _short_state(lines[1]["state"]), "file_tree": _short(impls[1]["doc"]), "model_agrees": canon_model_roundtrip(model[1]) == impls[1]})
-    st.sample({"state": _short_state(lines[-1]["state"]), "model_agrees": canon_model_roundtrip(model[len(lines) - 1]) == impls[-1]})
+    st.sample({"state": _short_state(lines[1]["state"]), "file_tree": _short(impls[1]["doc"]), "model_agrees": canon_model_roundtrip(model[1]) == {k: impls[1][k] for k in ("doc", "loaded")}})
+    st.sample({"state": _short_state(lines[-1]["state"]), "pair_verify_before_after": impls[-1].get("pair_verify"),
+               "model_agrees": canon_model_roundtrip(model[len(lines) - 1]) == {k: impls[-1][k] for k in ("doc", "loaded")}})
     st.sample({"legacy_doc_members": sorted(docs[0][0]), "impl": _short(dimpls[0]), "model_agrees": model[len(lines)] == dimpls[0]})
 
 
